@@ -39,7 +39,7 @@ Print Assumptions parseoffset_formatoffset_minutes.
 (* F6: the statement is false for |off| = 24h *)
 Theorem parseoffset_24h_refuted :
   exists bs, format_offset 86400 [58; 42] = OK bs /\ fmt_parse_offset bs 58 = None.
-Proof. eexists. split; vm_compute; reflexivity. Qed.
+Proof. eexists. split; [vm_compute; reflexivity|]. vm_compute; reflexivity. Qed.
 Print Assumptions parseoffset_24h_refuted.
 
 (* sub-seconds: every femtosecond count survives %E*f / %E15f *)
